@@ -4,10 +4,15 @@ package c15
 
 import (
 	"bytes"
+	"context"
 	"crypto"
+	"crypto/x509"
 	"encoding/asn1"
+	"encoding/pem"
 	"errors"
 	"fmt"
+	"os"
+	"path/filepath"
 	"strings"
 	"sync"
 
@@ -36,10 +41,12 @@ type Case struct {
 	TSALen    int
 	Validator string // absent | vector:<r,r,..> | error | wrong-length | empty
 	NoTSA     bool   // no timestamper in the request
+	Roots     string // "" (the authority's root) | nil | empty: the caller's TSA root pool
+	ViaCtx    bool   // the request went through SignRequest.WithContext before signing
 }
 
 func (c Case) desc() string {
-	return fmt.Sprintf("%s key=%s scheme=%s tsa=%s(len %d) validator=%s timestamper=%v", mtName(c.MT), c.Kind, c.Scheme, c.Behaviour, c.TSALen, c.Validator, !c.NoTSA)
+	return fmt.Sprintf("%s key=%s scheme=%s tsa=%s(len %d) validator=%s timestamper=%v roots=%q via-context=%v", mtName(c.MT), c.Kind, c.Scheme, c.Behaviour, c.TSALen, c.Validator, !c.NoTSA, c.Roots, c.ViaCtx)
 }
 
 func mtName(mt string) string {
@@ -117,6 +124,12 @@ func execute(r *core.Run, c *Case) {
 	net.Handle("tsa.c15.test/tsr", tsa.Handler())
 	req := sims.BaseRequest(c.MT, signer, signature.SigningScheme(c.Scheme))
 	req.TSARootCAs = tsa.Roots()
+	switch c.Roots {
+	case "nil":
+		req.TSARootCAs = nil
+	case "empty":
+		req.TSARootCAs = x509.NewCertPool()
+	}
 	if !c.NoTSA {
 		ts, err := tspclient.NewHTTPTimestamper(net.Client(), endpoint)
 		if err != nil {
@@ -151,6 +164,11 @@ func execute(r *core.Run, c *Case) {
 		r.Inconclusive(err.Error())
 		return
 	}
+	if c.ViaCtx {
+		type ctxKey struct{}
+		req = req.WithContext(context.WithValue(context.Background(), ctxKey{}, 1))
+		r.Count("request-via-WithContext", 1)
+	}
 	var raw []byte
 	var serr error
 	r.Eval(1)
@@ -183,6 +201,11 @@ func execute(r *core.Run, c *Case) {
 		return
 	}
 	bc, vc := classOf(c.Behaviour, c.TSALen), validatorOK(c.Validator, c.TSALen)
+	if c.Roots != "" {
+		// whatever the host's own trust store holds, the caller trusts nobody
+		bc = "bad"
+		r.Count("caller-trusts-no-tsa-root", 1)
+	}
 	mustSucceed := bc == "good" && vc == "good"
 	mustFail := bc == "bad" || vc == "bad"
 	// a validator verdict only matters if the token got that far
@@ -336,6 +359,7 @@ func run(r *core.Run) int {
 		"x revocation validator {absent, every vector over {OK, NonRevokable, Unknown, Revoked}^n for the TSA chain length n = 2..4, error, wrong length, empty} x 2 formats x 2 schemes x timestamper present/absent; complete for P-256, pairwise for the other five key specs. non-trivial = a timestamper is set; distinct by descriptor"
 	r.Assume("a TSA chain that expired decades ago (or starts decades from now) does not 'chain to the trusted roots' at the time of signing, whatever genTime the token claims")
 	r.Assume("the authority double labels what it served; 'granted with modifications', a non-UTC genTime and TSTInfo version 2 are not settled by the statement and only counted")
+	hostTrustStore(r)
 	var cases []*Case
 	rng := r.Rand("pairwise")
 	for _, mt := range []string{sims.JWS, sims.COSE} {
@@ -372,6 +396,24 @@ func run(r *core.Run) int {
 			cases = append(cases, &Case{MT: mt, Kind: kind, Scheme: "notary.x509.signingAuthority", Behaviour: "granted", TSALen: 2, Validator: "absent"})
 		}
 	}
+	// the caller's TSA root pool nil or empty, while the host's trust store holds
+	// the authority's root; and every fourth request passed through WithContext
+	for _, mt := range []string{sims.JWS, sims.COSE} {
+		for _, roots := range []string{"nil", "empty"} {
+			for _, n := range []int{2, 3} {
+				for _, v := range []string{"absent", "vector:" + strings.TrimSuffix(strings.Repeat("OK,", n), ",")} {
+					cases = append(cases, &Case{MT: mt, Kind: "p256", Scheme: "notary.x509", Behaviour: "granted", TSALen: n, Validator: v, Roots: roots})
+				}
+			}
+		}
+	}
+	for i, c := range append([]*Case{}, cases...) {
+		if i%4 == 0 {
+			d := *c
+			d.ViaCtx = true
+			cases = append(cases, &d)
+		}
+	}
 	r.Set("cases", len(cases))
 	r.Set("behaviours", sims.TSABehaviours)
 	r.Parallel(len(cases), func(i int) {
@@ -387,10 +429,39 @@ func run(r *core.Run) int {
 	return r.Finish(r.Pick(1000, 8000),
 		core.Require{Counter: "timestamped", Why: "no timestamped envelope was produced"},
 		core.Require{Counter: "timestamp-errors", Why: "no timestamp error was observed"},
-		core.Require{Counter: "no-timestamp-due", Why: "no case without a due timestamp"})
+		core.Require{Counter: "no-timestamp-due", Why: "no case without a due timestamp"},
+		core.Require{Counter: "caller-trusts-no-tsa-root", Why: "no case with a nil / empty caller pool"},
+		core.Require{Counter: "request-via-WithContext", Why: "no request went through WithContext"})
+}
+
+// hostTrustStore makes the authority's clean roots part of the HOST's trust
+// store (before anything in this process loads it), so that a nil or empty
+// caller pool is distinguishable from "trust what the host trusts".
+func hostTrustStore(r *core.Run) {
+	dir := filepath.Join(core.WorkDir(), "host-trust")
+	os.MkdirAll(filepath.Join(dir, "empty"), 0o755)
+	var b []byte
+	for _, c := range sims.TSACleanRoots() {
+		b = append(b, pem.EncodeToMemory(&pem.Block{Type: "CERTIFICATE", Bytes: c.Raw})...)
+	}
+	f := filepath.Join(dir, "roots.pem")
+	if err := os.WriteFile(f, b, 0o644); err != nil {
+		r.Inconclusive("host trust store: " + err.Error())
+		return
+	}
+	os.Setenv("SSL_CERT_FILE", f)
+	os.Setenv("SSL_CERT_DIR", filepath.Join(dir, "empty"))
+	if p, err := x509.SystemCertPool(); err == nil && p != nil {
+		for _, c := range sims.TSACleanRoots() {
+			if _, err := c.Verify(x509.VerifyOptions{Roots: p, KeyUsages: []x509.ExtKeyUsage{x509.ExtKeyUsageAny}, CurrentTime: pki.Mid}); err == nil {
+				r.Count("host-trust-store-holds-the-authority-root", 1)
+			}
+		}
+	}
 }
 
 func replay(r *core.Run, path string) int {
+	hostTrustStore(r)
 	var c Case
 	if err := core.LoadReplay(path, &c); err != nil {
 		fmt.Println("replay:", err)
